@@ -1,12 +1,14 @@
 import Driver.Util
 import Verif.Model.RingGlue
+import Verif.Gen.Constants
 /-! Model driver for suites c20 and c20glue (op languages: see /verif/go/harness/suite_c20.go, suite_c20glue.go).
 Runs the heap-level ring with the glue (`Verif.Model.RingGlue`): entries are objects, `GetLogs` returns pointers. -/
 namespace Driver.Ring
 open Verif.Ring Driver
 
-/-- `logging.BufferSize`; the suite's `cap` op compares it with the constant in the Go source -/
-def bufferSize : Nat := 1024
+/-- `logging.BufferSize` as regenerated from the Go source before the build (`Verif/Gen/Constants.lean`); the suite's
+`cap` op compares it with the constant of the running code -/
+def bufferSize : Nat := Verif.Gen.Constants.bufferSize
 
 structure St where
   /-- the memory loggers (one for c20 / `new`; three after `init`: Logger, N2n, MemUsage) -/
